@@ -3,12 +3,35 @@
 //! Everything the library returned is recorded; nothing is judged here.
 use crate::cmp::{alphabet, cap_runs, pick_bh_len, rand_bh, related, H};
 use crate::util::*;
-use ssdeep::{DualFuzzyHash, FuzzyHash, FuzzyHashData, LongDualFuzzyHash, LongFuzzyHash, LongRawFuzzyHash, RawFuzzyHash};
-use std::fmt::Write as _;
+use ssdeep::{DualFuzzyHash, FuzzyHash, LongDualFuzzyHash, LongFuzzyHash, LongRawFuzzyHash, RawFuzzyHash};
 use std::hash::{Hash, Hasher};
 use std::panic::{catch_unwind, AssertUnwindSafe};
 
 pub const SENTINEL: usize = 4242;
+#[cfg(feature = "alloc")]
+macro_rules! raw_form_string {
+    ($d:expr) => {
+        $d.to_raw_form_string()
+    };
+}
+#[cfg(not(feature = "alloc"))]
+macro_rules! raw_form_string {
+    ($d:expr) => {
+        $d.to_raw_form().to_string()
+    };
+}
+#[cfg(feature = "alloc")]
+macro_rules! normalized_string {
+    ($d:expr) => {
+        $d.to_normalized_string()
+    };
+}
+#[cfg(not(feature = "alloc"))]
+macro_rules! normalized_string {
+    ($d:expr) => {
+        $d.to_normalized().to_string()
+    };
+}
 
 struct RecHasher(Vec<u8>);
 impl Hasher for RecHasher {
@@ -130,7 +153,7 @@ macro_rules! parse_dual {
                 // the observations themselves may panic on a corrupted object: that is data too
                 let obs = catch_unwind(AssertUnwindSafe(|| {
                     let raw = h.to_raw_form();
-                    (raw.log_block_size(), raw.block_hash_1().to_vec(), raw.block_hash_2().to_vec(), h.is_valid(), h.to_raw_form_string(), h.to_normalized_string(), h.as_normalized().is_valid())
+                    (raw.log_block_size(), raw.block_hash_1().to_vec(), raw.block_hash_2().to_vec(), h.is_valid(), h.to_raw_form().to_string(), h.to_normalized().to_string(), h.as_normalized().is_valid())
                 }));
                 match obs {
                     Ok((k, a, b, valid, txt, ntxt, nvalid)) => parse_record("ok", k, &a, &b, valid, idx, fbs, fss, txt.as_bytes(), ntxt.as_bytes(), nvalid, "", "", 0),
@@ -202,6 +225,98 @@ fn bs_text(rng: &mut Rng) -> Vec<u8> {
         _ => format!("{}", 3u64 << rng.below(31)).into_bytes(),
     }
 }
+pub fn structured_text(rng: &mut Rng) -> Vec<u8> {
+    let menu: &[usize] = &[0, 1, 3, 4, 7, 29, 30, 31, 32, 33, 34, 35, 36, 61, 62, 63, 64, 65, 66, 67, 68, 100, 200];
+    let small: &[usize] = &[0, 1, 2, 3, 4, 5, 7, 9];
+    let mut t = bs_text(rng);
+    t.push(b':');
+    let m1: &[usize] = if rng.chance(1, 2) { menu } else { small };
+    let m2: &[usize] = if rng.chance(1, 2) { menu } else { small };
+    let nr1 = rng.range(0, 3);
+    t.extend(runs_text(rng, nr1, m1));
+    t.push(if rng.chance(1, 20) { b',' } else { b':' });
+    let nr2 = rng.range(0, 3);
+    t.extend(runs_text(rng, nr2, m2));
+    match rng.below(6) {
+        0 => t.push(b','),
+        1 => t.extend_from_slice(b",x:y,\"file name\""),
+        2 => t.push(b':'),
+        3 => t.push(b'!'),
+        _ => {}
+    }
+    t
+}
+pub fn border_texts() -> Vec<Vec<u8>> {
+    let mut out = vec![];
+    for runlen in (28..=40).chain(60..=72).chain([100, 130, 200]) {
+        for pre in 0..=3usize {
+            for field in 0..2 {
+                let mut bh = vec![];
+                for i in 0..pre {
+                    bh.push(B64[1 + i]);
+                }
+                for _ in 0..runlen {
+                    bh.push(b'A');
+                }
+                let mut t = b"3:".to_vec();
+                if field == 0 {
+                    t.extend(&bh);
+                    t.push(b':');
+                } else {
+                    t.push(b':');
+                    t.extend(&bh);
+                }
+                out.push(t);
+            }
+        }
+    }
+    out
+}
+pub fn mutated_text(rng: &mut Rng) -> Vec<u8> {
+    let inject: &[u8] = &[b':', b',', b'!', b' ', 0x80, 0xff, 0, b'=', b'-', b'A', b'/', b'+', b'0', b'9'];
+    let mut t: Vec<u8> = if rng.chance(1, 3) {
+        let len = rng.range(0, 3000);
+        let data: Vec<u8> = (0..len).map(|_| rng.next() as u8).collect();
+        let mut g = ssdeep::Generator::new();
+        g.update(&data);
+        if rng.chance(1, 2) { g.finalize().unwrap().to_string().into_bytes() } else { g.finalize_without_truncation().unwrap().to_string().into_bytes() }
+    } else {
+        let al = alphabet(rng);
+        let la = pick_bh_len(rng, 64);
+        let cap_b = if rng.chance(1, 2) { 64 } else { 32 };
+        let lb = pick_bh_len(rng, cap_b);
+        let mut t = format!("{}:", 3u64 << rng.below(31)).into_bytes();
+        t.extend(enc(&rand_bh(rng, la, &al, 0)));
+        t.push(b':');
+        t.extend(enc(&rand_bh(rng, lb, &al, 0)));
+        if rng.chance(1, 4) {
+            t.extend_from_slice(b",name");
+        }
+        t
+    };
+    for _ in 0..rng.range(0, 3) {
+        match rng.below(4) {
+            0 if !t.is_empty() => {
+                let i = rng.range(0, t.len() - 1);
+                t.remove(i);
+            }
+            1 => {
+                let i = rng.range(0, t.len());
+                t.insert(i, *rng.pick(inject));
+            }
+            2 if !t.is_empty() => {
+                let i = rng.range(0, t.len() - 1);
+                t[i] = *rng.pick(inject);
+            }
+            3 if !t.is_empty() => {
+                let i = rng.range(0, t.len());
+                t.truncate(i);
+            }
+            _ => {}
+        }
+    }
+    t
+}
 pub fn drive_parse(a: &Args, thorough: bool) {
     let mut sh = Shards::new(&a.out, "obj_parse", a.shards);
     let mut rng = Rng::new(a.seed ^ 0x8888);
@@ -229,107 +344,32 @@ pub fn drive_parse(a: &Args, thorough: bool) {
         frontier = next;
     }
     // (b) structured: spelling class x run-built block hashes x terminators
-    let menu: &[usize] = &[0, 1, 3, 4, 7, 29, 30, 31, 32, 33, 34, 35, 36, 61, 62, 63, 64, 65, 66, 67, 68, 100, 200];
-    let small: &[usize] = &[0, 1, 2, 3, 4, 5, 7, 9];
     let reps = if thorough { 40000 } else { 5000 };
     for i in 0..reps {
         if i % 100 == 0 {
             sh.next_unit();
         }
-        let mut t = bs_text(&mut rng);
-        t.push(b':');
-        let m1: &[usize] = if rng.chance(1, 2) { menu } else { small };
-        let m2: &[usize] = if rng.chance(1, 2) { menu } else { small };
-        let nr1 = rng.range(0, 3);
-        t.extend(runs_text(&mut rng, nr1, m1));
-        t.push(if rng.chance(1, 20) { b',' } else { b':' });
-        let nr2 = rng.range(0, 3);
-        t.extend(runs_text(&mut rng, nr2, m2));
-        match rng.below(6) {
-            0 => t.push(b','),
-            1 => t.extend_from_slice(b",x:y,\"file name\""),
-            2 => t.push(b':'),
-            3 => t.push(b'!'),
-            _ => {}
-        }
+        let t = structured_text(&mut rng);
         ev_parse(&mut sh, &t);
         n += 1;
         accepted_shapes += 1;
     }
     // (b') the families at the capacity borders, deterministically: one run of every length 60..72
     //      (and 28..40 for block hash 2) alone and after 1..3 other characters
-    for runlen in (28..=40).chain(60..=72).chain([100, 130, 200]) {
-        sh.next_unit();
-        for pre in 0..=3usize {
-            for field in 0..2 {
-                let mut bh = vec![];
-                for i in 0..pre {
-                    bh.push(B64[1 + i]);
-                }
-                for _ in 0..runlen {
-                    bh.push(b'A');
-                }
-                let mut t = b"3:".to_vec();
-                if field == 0 {
-                    t.extend(&bh);
-                    t.push(b':');
-                } else {
-                    t.push(b':');
-                    t.extend(&bh);
-                }
-                ev_parse(&mut sh, &t);
-                n += 1;
-            }
+    for (i, t) in border_texts().iter().enumerate() {
+        if i % 8 == 0 {
+            sh.next_unit();
         }
+        ev_parse(&mut sh, t);
+        n += 1;
     }
     // (c) byte-level mutations of accepted texts (incl. generator output)
     let reps = if thorough { 100000 } else { 8000 };
-    let inject: &[u8] = &[b':', b',', b'!', b' ', 0x80, 0xff, 0, b'=', b'-', b'A', b'/', b'+', b'0', b'9'];
     for i in 0..reps {
         if i % 100 == 0 {
             sh.next_unit();
         }
-        let mut t: Vec<u8> = if rng.chance(1, 3) {
-            let len = rng.range(0, 3000);
-            let data: Vec<u8> = (0..len).map(|_| rng.next() as u8).collect();
-            let mut g = ssdeep::Generator::new();
-            g.update(&data);
-            if rng.chance(1, 2) { g.finalize().unwrap().to_string().into_bytes() } else { g.finalize_without_truncation().unwrap().to_string().into_bytes() }
-        } else {
-            let al = alphabet(&mut rng);
-            let la = pick_bh_len(&mut rng, 64);
-            let cap_b = if rng.chance(1, 2) { 64 } else { 32 };
-            let lb = pick_bh_len(&mut rng, cap_b);
-            let mut t = format!("{}:", 3u64 << rng.below(31)).into_bytes();
-            t.extend(enc(&rand_bh(&mut rng, la, &al, 0)));
-            t.push(b':');
-            t.extend(enc(&rand_bh(&mut rng, lb, &al, 0)));
-            if rng.chance(1, 4) {
-                t.extend_from_slice(b",name");
-            }
-            t
-        };
-        for _ in 0..rng.range(0, 3) {
-            match rng.below(4) {
-                0 if !t.is_empty() => {
-                    let i = rng.range(0, t.len() - 1);
-                    t.remove(i);
-                }
-                1 => {
-                    let i = rng.range(0, t.len());
-                    t.insert(i, *rng.pick(inject));
-                }
-                2 if !t.is_empty() => {
-                    let i = rng.range(0, t.len() - 1);
-                    t[i] = *rng.pick(inject);
-                }
-                3 if !t.is_empty() => {
-                    let i = rng.range(0, t.len());
-                    t.truncate(i);
-                }
-                _ => {}
-            }
-        }
+        let t = mutated_text(&mut rng);
         ev_parse(&mut sh, &t);
         n += 1;
     }
@@ -343,7 +383,10 @@ macro_rules! fmt_event {
         let obj: $T = <$T>::new_from_internals_near_raw($h.k, &$h.a, &$h.b);
         let txt = obj.to_string();
         let disp = format!("{}", obj);
+        #[cfg(feature = "alloc")]
         let from: String = String::from(obj);
+        #[cfg(not(feature = "alloc"))]
+        let from: String = disp.clone();
         let len = obj.len_in_str();
         let max = <$T>::MAX_LEN_IN_STR;
         let mut bufs = vec![];
@@ -612,8 +655,8 @@ macro_rules! dual_event {
                     rm.is_valid() && rm.full_eq(&r),
                     jh(nn.log_block_size(), nn.block_hash_1(), nn.block_hash_2()),
                     jh(an.log_block_size(), an.block_hash_1(), an.block_hash_2()),
-                    jarr_u8(d.to_raw_form_string().as_bytes()),
-                    jarr_u8(d.to_normalized_string().as_bytes()),
+                    jarr_u8(raw_form_string!(d).as_bytes()),
+                    jarr_u8(normalized_string!(d).as_bytes()),
                     jarr_u8(d.to_string().as_bytes()),
                     d.is_normalized()
                 )
